@@ -97,8 +97,51 @@ def coq_spec_check(pid, cases):
                               {"kind": "oracle-coq-spec", "cases": [c.to_json()], "step": fd}))
     return viols, {"coq_spec_cases": len(sel)}
 
+FLOAT_TIE = {"C01": 60, "C07": 60, "C14": 60, "C15": 60, "C16": 150, "C17": 60, "C02": 40, "C05": 40}
+def float_tie(pid):
+    """model@float (Coq primitive binary64) against the implementation at f64 (release build), bit for bit, on fresh cases"""
+    count = FLOAT_TIE.get(pid, 0) * (1 if _SEED[1] == "quick" else 4)
+    if not count:
+        return [], {}
+    rng = Rng(_SEED[0] * 7919 + int(pid[1:]))
+    names = [n for n in ALL_UNARY if n in FLOAT_OK]
+    cases = []
+    for i in range(count):
+        name = names[i % len(names)]
+        pos = name in POSITIVE_ONLY
+        inner = rng.choice([E, E] + [x for x in (INNERS_POS if pos else INNERS) if x[0] != "LnReturn"])
+        d = mk_view(rng, name, inner)
+        if i % 9 == 0:
+            d = (rng.choice(["Add", "Sub", "Mul"]), d, mk_view(rng, rng.choice(["Sma", "Ema", "Min", "Rsi"])))
+        if not float_executable(d):
+            continue
+        reg, xs = gen_stream(rng, 24 + rng.below(24), positive=pos, grid=rng.choice([4, 10, 7, 1000, 3]))
+        if rng.chance(0.25):
+            k_ = rng.below(len(xs))
+            xs[k_] = xs[k_] * 1000000
+        ops = []
+        for x in xs:
+            ops.append(("u", 0, x))
+            if rng.chance(0.1):
+                ops.append(("l", 0))
+        if rng.chance(0.2) and "Add" not in d_views(d):
+            ops.insert(len(ops) // 2, ("c", 0))
+            ops += [("u", 1, xs[0]), ("l", 0), ("u", 0, xs[-1])]
+        cases.append(Case(d, ops, {"view": name, "regime": reg, "mode": "f64", "model": False}))
+    run_impl(cases, mode="f64", profile="release")
+    res = float_correspondence(pid, cases)
+    viols = []
+    for c, fd in zip(cases, res):
+        if fd != 0 and len(viols) < 2:
+            viols.append(("float-correspondence", "model@float and the implementation at f64 differ bit-wise on %s at operation %d: the float-level theorems of %s are no longer tied to this code" % (d_sexpr(c.desc), fd, pid),
+                          {"kind": "float-correspondence", "case": c.to_json(), "first_diff_op": fd, "no_failing_input": True}))
+    return viols, {"float_cases_bit_exact": len(cases), "float_mismatches": sum(1 for x in res if x)}
+
 def finish(pid, tag, cases, oracle_viols, rule, extra=None):
     cv, st = corr_violations(pid, tag, cases)
+    fv, fst = float_tie(pid)
+    cv = cv + fv
+    st.update(fst)
     viols = list(oracle_viols)
     if pid in ("C02", "C04", "C05", "C06", "C10", "C11", "C13"):
         sv, sst = coq_spec_check(pid, [c for c in cases if c.meta.get("model", True)])
@@ -115,7 +158,9 @@ def finish(pid, tag, cases, oracle_viols, rule, extra=None):
     return {"coverage": cov, "violations": viols}
 
 # ====================================================================================== per property
+_SEED = [0, "quick"]
 def run(pid, tier, seed):
+    _SEED[0], _SEED[1] = seed, tier
     rng = Rng(seed * 1000 + int(pid[1:]))
     return globals()["run_" + pid](rng, tier)
 
@@ -154,6 +199,13 @@ def run_C14(rng, tier):
              Case.simple(a, xs, {"role": "a", "view": a[0]}), Case.simple(b, xs, {"role": "b", "view": b[0]})]
         groups.append(g)
         cases += g
+    for op in ("Add", "Sub", "Mul"):
+        for (a, b) in ((E, ("Sma", 4, E)), (("Sma", 4, E), E), (("Cumulative", 2, E), ("Ema", 5, E)), (("Ema", 5, E), ("Cumulative", 2, E))):
+            xs = [F(0), F(0), F(3), F(0), F(-2), F(0), F(5), F(1), F(0), F(4)]
+            g = [Case.simple((op, a, b), xs, {"regime": "zeros-while-warming", "view": op, "role": "parent"}),
+                 Case.simple(a, xs, {"role": "a", "view": a[0]}), Case.simple(b, xs, {"role": "b", "view": b[0]})]
+            groups.append(g)
+            cases += g
     for i in range(30 * k):
         name = ["Tanh", "Gte", "Lte"][i % 3]
         a = rng.choice(kids)
@@ -246,6 +298,17 @@ def run_C01(rng, tier):
         g = (Case.simple(d, xs, {"regime": reg, "view": op}), Case.simple(a, xs, {"view": a[0]}), Case.simple(b, xs, {"view": b[0]}))
         bgroups.append(g)
         cases += g
+    # one child exactly 0 (or any value) while the other is still warming up, in both positions
+    for op in ("Add", "Sub", "Mul", "Div"):
+        for fast, slow in ((E, ("Sma", 4, E)), (("Cyber", 5, E), ("Ema", 6, E)), (("Cumulative", 2, E), ("Rsi", 5, E))):
+            for (a, b) in ((fast, slow), (slow, fast)):
+                if op == "Div" and b is fast:
+                    continue
+                xs = [F(0), F(0), F(3), F(0), F(-2), F(0), F(5), F(1), F(0), F(4)]
+                d = (op, a, b)
+                g = (Case.simple(d, xs, {"regime": "zeros-while-warming", "view": op}), Case.simple(a, xs, {"view": a[0]}), Case.simple(b, xs, {"view": b[0]}))
+                bgroups.append(g)
+                cases += g
     # probe leaves
     P = lambda k_: ("Probe", k_)
     trees = [("Add", ("Sma", 2, P(1)), ("Ema", 3, P(2))), ("Sub", P(1), ("Mul", P(2), ("Roc", 2, P(3)))), ("Pfe", 4, ("Sma", 2, P(1)), ("Ema", 2, E)),
